@@ -605,4 +605,13 @@ def rule_cache_entries(ctx):
     r(ctx)
 
 
-RULES = [('C01.a', rule_a), ('C01.b', rule_b), ('C01.c', rule_c), ('C01.d', rule_e), ('C01.e', rule_f), ('C01.f', rule_g), ('C06.e', rule_h), ('C06.a', rule_i), ('C01.g', rule_j), ('C01.h', rule_k), ('C01.i+C02.e+C17.c+C05.g+C01.j', rule_l), ('C05.a+C05.f+C03.b+C03.c+C03.f', rule_d), ('C01.m', rule_balancer), ('C01.n', rule_pumps), ('C11.c', rule_dead_responders_silenced), ('C01.o', rule_default_subscriber), ('C01.p', rule_responder_setup), ('C03.j', rule_cache_entries)]
+
+def rule_sender_writes_every_hand_out(ctx):
+    """(shared C05.i)  Every frame or fragment the sender takes from the queue is written: a skipped last fragment leaves
+    the peer with a partial frame, i.e. the payload is never delivered (rules/c05.py)."""
+    from .c05 import rule_every_dequeued_frame_is_written
+    rule_every_dequeued_frame_is_written(ctx)
+
+
+
+RULES = [('C01.a', rule_a), ('C01.b', rule_b), ('C01.c', rule_c), ('C01.d', rule_e), ('C01.e', rule_f), ('C01.f', rule_g), ('C06.e', rule_h), ('C06.a', rule_i), ('C01.g', rule_j), ('C01.h', rule_k), ('C01.i+C02.e+C17.c+C05.g+C01.j', rule_l), ('C05.a+C05.f+C03.b+C03.c+C03.f', rule_d), ('C01.m', rule_balancer), ('C01.n', rule_pumps), ('C11.c', rule_dead_responders_silenced), ('C01.o', rule_default_subscriber), ('C01.p', rule_responder_setup), ('C03.j', rule_cache_entries), ('C05.i', rule_sender_writes_every_hand_out)]
